@@ -2,6 +2,7 @@
 # usage: seedrecheck.sh <seed id> <PID>...   re-runs the given checks against seeded/<id>/patch.diff in a scratch worktree and refreshes
 # seeded/<id>/checks.log and the checks_run / detected_by fields of meta.json (the confirmation part, verify.log, is left as it is)
 set -u
+VH=${VERIF_HOME:-/verif}   # the machinery to run (a snapshot copy lets /verif be edited while a batch runs); results always go to /verif/seeded
 ID=$1; shift
 OUT=/verif/seeded/$ID
 WT=$(mktemp -d /tmp/sr-XXXXXX)
@@ -10,7 +11,7 @@ git -C /repo worktree add -q --detach "$WT/repo" HEAD
 : > "$OUT/checks.log"
 RES=""
 for pid in "$@"; do
-  o=$(VERIF_REPO="$WT/repo" VERIF_SCRATCH="$WT/scratch" /verif/check $pid 2>&1); rc=$?
+  o=$(VERIF_REPO="$WT/repo" VERIF_SCRATCH="$WT/scratch" $VH/check $pid 2>&1); rc=$?
   echo "=== check $pid exit=$rc" >> "$OUT/checks.log"; echo "$o" | grep -E "^(VIOLATION|UNDECIDED|KNOWN|property)" | cut -c1-300 >> "$OUT/checks.log"
   RES="$RES $pid:$rc"
 done
